@@ -78,8 +78,21 @@ def extend(g, api):
         return parts
     fun('creditOverStream', ['offset', 'sentMaxStreamData'], f'{RECV}::Recv::credit_consumed_by stream limit test',
         lambda: tr_expr(ccb_tests()[0], {'self.sent_max_stream_data': 'sentMaxStreamData', 'offset': 'offset'}), ty='Bool')
+    # the connection-level disjunct is either `received + new_bytes > max_data` (the sum may overflow: a panic in a
+    # checked build) or `received.checked_add(new_bytes).is_none_or(|total| total > max_data)` (overflow = error)
+    CHECKED = r'received\s*\.checked_add\(\s*new_bytes\s*\)\s*\.is_none_or\(\s*\|\s*(\w+)\s*\|\s*(\1\s*[<>=!]+\s*max_data)\s*\)'
+    def ccb_conn():
+        t = ccb_tests()[1]
+        m = re.fullmatch(CHECKED, t)
+        if m:
+            return True, re.sub(r'\b' + m.group(1) + r'\b', 'sum', m.group(2))
+        if re.search(r'checked_add|is_none_or|saturating|wrapping', t):
+            raise TE(f'credit_consumed_by: connection limit test not recognised: {t}')
+        return False, re.sub(r'received\s*\+\s*new_bytes', 'sum', t)
     fun('creditOverConn', ['sum', 'maxData'], f'{RECV}::Recv::credit_consumed_by connection limit test',
-        lambda: tr_expr(re.sub(r'received\s*\+\s*new_bytes', 'sum', ccb_tests()[1]), {'max_data': 'maxData', 'sum': 'sum'}), ty='Bool')
+        lambda: tr_expr(ccb_conn()[1], {'max_data': 'maxData', 'sum': 'sum'}), ty='Bool')
+    g.term('creditOverflowIsError', 'Bool', f'{RECV}::Recv::credit_consumed_by overflow of received + new_bytes is a FLOW_CONTROL_ERROR',
+           lambda: 'true' if ccb_conn()[0] else 'false')
 
     # ---- Recv::ingest: `if end >= 2u64.pow(62)`
     def ingest_bound():
